@@ -32,7 +32,9 @@ def _make_env(method):
         return {"self": self, "pop": {"total": ["a", "b"]}, "output_name": "x", "pop_aggregation": method,
                 "aggregated_outputs": {"a": {"x": a}, "b": {"x": b}}, "aggregated_units": {"x": "u"}, "aggregated_timescales": {"x": None},
                 "popsize": {"a": LArr(n, lambda i: pa, fresh_alloc=False), "b": LArr(n, lambda i: pb, fresh_alloc=False)},
-                "tvecs": {"r": None}, "result_label": "r", "pops_required": ["a", "b", "c"], "outputs_required": ["x", "y"], "data_label": {"x": None}, "A": a, "B": b, "PA": pa, "PB": pb, "n": n}
+                "tvecs": {"r": None}, "result_label": "r", "pops_required": ["a", "b", "c"], "outputs_required": ["x", "y"],
+                # whatever a previous iteration of the enclosing loops left behind (the body must choose its own method)
+                "this_pop_aggregation": "sum", "this_output_aggregation": "sum", "data_label": {"x": None}, "A": a, "B": b, "PA": pa, "PB": pb, "n": n}
 
     return make
 
@@ -102,7 +104,7 @@ def _replay(model, contract):
     env = dict(vars(apl))
     env.update(self=pd, pop={"total": ["a", "b"]}, output_name="x", pop_aggregation=method, aggregated_outputs={"a": {"x": a.copy()}, "b": {"x": b.copy()}},
                aggregated_units={"x": apl.FS.QUANTITY_TYPE_PROBABILITY if dimless else apl.FS.QUANTITY_TYPE_NUMBER}, aggregated_timescales={"x": None},
-               popsize={"a": np.full(n, pa), "b": np.full(n, pb)}, tvecs={"r": np.arange(n, dtype=float)}, result_label="r", pops_required=["a", "b", "c"], outputs_required=["x", "y"], data_label={"x": None})
+               popsize={"a": np.full(n, pa), "b": np.full(n, pb)}, tvecs={"r": np.arange(n, dtype=float)}, result_label="r", pops_required=["a", "b", "c"], outputs_required=["x", "y"], this_pop_aggregation="sum", this_output_aggregation="sum", data_label={"x": None})
     pre = dict(method=method, dimensionless=dimless, a=a.tolist(), b=b.tolist(), popsize=[pa, pb])
     try:
         with np.errstate(all="ignore"):
@@ -142,7 +144,7 @@ def _make_env_out(method):
         X, Y, SX, SY = arr("vals_x"), arr("vals_y"), arr("size_x"), arr("size_y")
         return {"self": None, "output": {"agg": ["x", "y"]}, "pop_label": "p", "output_aggregation": method, # a third output 'z' is present in the same call but is not part of the aggregate
                 "data_dict": {"x": X, "y": Y, "z": arr("size_x")}, "compsize": {"x": SX, "y": SY, "z": SX},
-                "output_units": {"x": "u", "y": "u", "z": "other"}, "output_timescales": {"x": None, "y": None, "z": 1.0}, "aggregated_outputs": {"p": {}}, "aggregated_units": {}, "aggregated_timescales": {},
+                "output_units": {"x": "u", "y": "u", "z": "other"}, "output_timescales": {"x": None, "y": None, "z": 1.0}, "aggregated_outputs": {"p": {}}, "aggregated_units": {}, "aggregated_timescales": {}, "this_output_aggregation": "sum",
                 "X": X, "Y": Y, "SX": SX, "SY": SY, "n": n}
 
     return make
@@ -201,7 +203,7 @@ def _replay_out(model, contract):
     unit = apl.FS.QUANTITY_TYPE_PROBABILITY if dimless else apl.FS.QUANTITY_TYPE_NUMBER
     env = dict(vars(apl))
     env.update(self=None, output={"agg": ["x", "y"]}, pop_label="p", output_aggregation=method, data_dict={"x": X.copy(), "y": Y.copy(), "z": SX.copy()}, compsize={"x": SX.copy(), "y": SY.copy(), "z": SX.copy()},
-               output_units={"x": unit, "y": unit, "z": "other"}, output_timescales={"x": None, "y": None, "z": 1.0}, aggregated_outputs={"p": {}}, aggregated_units={}, aggregated_timescales={})
+               output_units={"x": unit, "y": unit, "z": "other"}, output_timescales={"x": None, "y": None, "z": 1.0}, aggregated_outputs={"p": {}}, aggregated_units={}, aggregated_timescales={}, this_output_aggregation="sum")
     pre = dict(method=method, dimensionless=dimless, x=X.tolist(), y=Y.tolist(), size_x=SX.tolist(), size_y=SY.tolist())
     try:
         with np.errstate(all="ignore"):
